@@ -23,7 +23,9 @@ def slack(ctx, J, x, allow):
 
 def check_qp_agg(ctx: Ctx, name, cls, J, Jt, dtype, s2, pref, reg_eps, norm_eps, fam):
     m = len(J)
-    A = cls(pref_vector=None if pref is None else torch.tensor([float(v) for v in pref], dtype=dtype),
+    # quarters: exactly representable in half / single / double precision (the preference vector need not be in J's dtype)
+    pd = ctx.rng.choice([dtype, dtype, torch.float16, torch.float32, torch.float64])
+    A = cls(pref_vector=None if pref is None else torch.tensor([float(v) for v in pref], dtype=torch.float64).to(pd),
             norm_eps=norm_eps, reg_eps=reg_eps)
     st, x = run_agg(A, Jt)
     rp = {"aggregator": name, "family": fam, "J": [[str(v) for v in r] for r in J], "pref": None if pref is None else [str(v) for v in pref],
